@@ -260,3 +260,74 @@ package dnsdata
 //@ ensures[name] traw(old(ntok) + 1, ite(codec.Features.UseV2Keys, 10, 9), uf.lower(ite(iswildname(domain), domain[2:], domain)))
 //@ ensures[kind] tlit(old(ntok) + 2, ite(iswildname(domain), "*", "="))
 //@ ensures[bytes] result == uf.bufbytes(kb)
+
+// ---- C09: the remaining record lines. Each contract states the whole line: prefix, then every field that
+// ---- UnmarshalText reads back (and MarshalMap compiles), in field order, separated by NSEP; n = old(ntok).
+// SOA: the serial is optional in the text. It is printed (as a number token at position 7) or omitted; when it
+// is omitted the reader substitutes its default (the codec's serial, 0 without codec), so omitting is only
+// faithful when the record's serial IS that default.
+//@ spec soaser(n int) int = ite(tokK[n + 7] == 3, 1, 0)
+//@ func Rsoa.MarshalText
+//@ updates ntok, tokK, tokS, tokB, tokN
+//@ flag skip frame
+//@ ensures[names] tlit(old(ntok), "Z") && tdom(old(ntok) + 1, r.dom) && tsep(old(ntok) + 2) && tdom(old(ntok) + 3, r.ns) && tsep(old(ntok) + 4) && tdom(old(ntok) + 5, r.adm) && tsep(old(ntok) + 6)
+//@ ensures[serial] (soaser(old(ntok)) == 1 ==> tnum(old(ntok) + 7, r.ser)) && tsep(old(ntok) + 7 + soaser(old(ntok)))
+//@ ensures[serial-faithful] soaser(old(ntok)) == 0 ==> r.ser == ite(r.c != nil, r.c.Serial, 0)
+//@ ensures[timers] tnum(old(ntok) + 8 + soaser(old(ntok)), r.ref) && tsep(old(ntok) + 9 + soaser(old(ntok))) && tnum(old(ntok) + 10 + soaser(old(ntok)), r.ret) && tsep(old(ntok) + 11 + soaser(old(ntok))) && tnum(old(ntok) + 12 + soaser(old(ntok)), r.exp) && tsep(old(ntok) + 13 + soaser(old(ntok))) && tnum(old(ntok) + 14 + soaser(old(ntok)), r.min) && tsep(old(ntok) + 15 + soaser(old(ntok))) && tnum(old(ntok) + 16 + soaser(old(ntok)), r.ttl)
+//@ ensures[tail] tsep(old(ntok) + 17 + soaser(old(ntok))) && tsep(old(ntok) + 18 + soaser(old(ntok))) && tloc(old(ntok) + 19 + soaser(old(ntok)), r.lo) && ntok == old(ntok) + 20 + soaser(old(ntok)) && err == nil
+//@ func Rns.MarshalText
+//@ updates ntok, tokK, tokS, tokB, tokN
+//@ flag skip frame
+//@ ensures[fields] err == nil ==> tlit(old(ntok), "&") && tdom(old(ntok) + 1, r.Rns1.dom) && tsep(old(ntok) + 2) && tbytes(old(ntok) + 3, uf.iptext(r.Raddr.ip)) && tsep(old(ntok) + 4) && tdom(old(ntok) + 5, r.Rns1.ns) && tsep(old(ntok) + 6) && tnum(old(ntok) + 7, r.Rns1.ttl) && tsep(old(ntok) + 8) && tsep(old(ntok) + 9) && tloc(old(ntok) + 10, r.Rns1.lo) && ntok == old(ntok) + 11
+//@ func Rns1.MarshalText
+//@ updates ntok, tokK, tokS, tokB, tokN
+//@ flag skip frame
+//@ ensures[fields] err == nil && tlit(old(ntok), "&") && tdom(old(ntok) + 1, r.dom) && tsep(old(ntok) + 2) && tsep(old(ntok) + 3) && tdom(old(ntok) + 4, r.ns) && tsep(old(ntok) + 5) && tnum(old(ntok) + 6, r.ttl) && tsep(old(ntok) + 7) && tsep(old(ntok) + 8) && tloc(old(ntok) + 9, r.lo) && ntok == old(ntok) + 10
+//@ func Rpaddr.MarshalText
+//@ updates ntok, tokK, tokS, tokB, tokN
+//@ flag skip frame
+//@ ensures[fields] err == nil ==> tlit(old(ntok), "=") && (r.iswildcard ==> tlit(old(ntok) + 1, "*.")) && tdom(old(ntok) + 1 + ite(r.iswildcard, 1, 0), r.dom) && tsep(old(ntok) + 2 + ite(r.iswildcard, 1, 0)) && tbytes(old(ntok) + 3 + ite(r.iswildcard, 1, 0), uf.iptext(r.ip)) && tsep(old(ntok) + 4 + ite(r.iswildcard, 1, 0)) && tnum(old(ntok) + 5 + ite(r.iswildcard, 1, 0), r.ttl) && tsep(old(ntok) + 6 + ite(r.iswildcard, 1, 0)) && tsep(old(ntok) + 7 + ite(r.iswildcard, 1, 0)) && tloc(old(ntok) + 8 + ite(r.iswildcard, 1, 0), r.lo) && ntok == old(ntok) + 9 + ite(r.iswildcard, 1, 0)
+//@ func Rmx.MarshalText
+//@ updates ntok, tokK, tokS, tokB, tokN
+//@ flag skip frame
+//@ ensures[fields] err == nil ==> tlit(old(ntok), "@") && tdom(old(ntok) + 1, r.Rmx1.dom) && tsep(old(ntok) + 2) && tbytes(old(ntok) + 3, uf.iptext(r.Raddr.ip)) && tsep(old(ntok) + 4) && tdom(old(ntok) + 5, r.Rmx1.mx) && tsep(old(ntok) + 6) && tnum(old(ntok) + 7, r.Rmx1.dist) && tsep(old(ntok) + 8) && tnum(old(ntok) + 9, r.Rmx1.ttl) && tsep(old(ntok) + 10) && tsep(old(ntok) + 11) && tloc(old(ntok) + 12, r.Rmx1.lo) && ntok == old(ntok) + 13
+//@ func Rmx1.MarshalText
+//@ updates ntok, tokK, tokS, tokB, tokN
+//@ flag skip frame
+//@ ensures[fields] err == nil && tlit(old(ntok), "@") && tdom(old(ntok) + 1, r.dom) && tsep(old(ntok) + 2) && tsep(old(ntok) + 3) && tdom(old(ntok) + 4, r.mx) && tsep(old(ntok) + 5) && tnum(old(ntok) + 6, r.dist) && tsep(old(ntok) + 7) && tnum(old(ntok) + 8, r.ttl) && tsep(old(ntok) + 9) && tsep(old(ntok) + 10) && tloc(old(ntok) + 11, r.lo) && ntok == old(ntok) + 12
+//@ func Rsrv.MarshalText
+//@ updates ntok, tokK, tokS, tokB, tokN
+//@ flag skip frame
+//@ ensures[fields] err == nil ==> tlit(old(ntok), "S") && tdom(old(ntok) + 1, r.Rsrv1.dom) && tsep(old(ntok) + 2) && tbytes(old(ntok) + 3, uf.iptext(r.Raddr.ip)) && tsep(old(ntok) + 4) && tdom(old(ntok) + 5, r.Rsrv1.srv) && tsep(old(ntok) + 6) && tnum(old(ntok) + 7, r.Rsrv1.port) && tsep(old(ntok) + 8) && tnum(old(ntok) + 9, r.Rsrv1.pri) && tsep(old(ntok) + 10) && tnum(old(ntok) + 11, r.Rsrv1.weight) && tsep(old(ntok) + 12) && tnum(old(ntok) + 13, r.Rsrv1.ttl) && tsep(old(ntok) + 14) && tsep(old(ntok) + 15) && tloc(old(ntok) + 16, r.Rsrv1.lo) && ntok == old(ntok) + 17
+//@ func Rsrv1.MarshalText
+//@ updates ntok, tokK, tokS, tokB, tokN
+//@ flag skip frame
+//@ ensures[fields] err == nil && tlit(old(ntok), "S") && tdom(old(ntok) + 1, r.dom) && tsep(old(ntok) + 2) && tsep(old(ntok) + 3) && tdom(old(ntok) + 4, r.srv) && tsep(old(ntok) + 5) && tnum(old(ntok) + 6, r.port) && tsep(old(ntok) + 7) && tnum(old(ntok) + 8, r.pri) && tsep(old(ntok) + 9) && tnum(old(ntok) + 10, r.weight) && tsep(old(ntok) + 11) && tnum(old(ntok) + 12, r.ttl) && tsep(old(ntok) + 13) && tsep(old(ntok) + 14) && tloc(old(ntok) + 15, r.lo) && ntok == old(ntok) + 16
+//@ func Rcname.MarshalText
+//@ updates ntok, tokK, tokS, tokB, tokN
+//@ flag skip frame
+//@ ensures[fields] err == nil && tlit(old(ntok), "C") && (r.iswildcard ==> tlit(old(ntok) + 1, "*.")) && tdom(old(ntok) + 1 + ite(r.iswildcard, 1, 0), r.dom) && tsep(old(ntok) + 2 + ite(r.iswildcard, 1, 0)) && tdom(old(ntok) + 3 + ite(r.iswildcard, 1, 0), r.cname) && tsep(old(ntok) + 4 + ite(r.iswildcard, 1, 0)) && tnum(old(ntok) + 5 + ite(r.iswildcard, 1, 0), r.ttl) && tsep(old(ntok) + 6 + ite(r.iswildcard, 1, 0)) && tsep(old(ntok) + 7 + ite(r.iswildcard, 1, 0)) && tloc(old(ntok) + 8 + ite(r.iswildcard, 1, 0), r.lo) && ntok == old(ntok) + 9 + ite(r.iswildcard, 1, 0)
+//@ func Rptr.MarshalText
+//@ updates ntok, tokK, tokS, tokB, tokN
+//@ flag skip frame
+//@ ensures[fields] err == nil && tlit(old(ntok), "^") && tdom(old(ntok) + 1, r.dom) && tsep(old(ntok) + 2) && tdom(old(ntok) + 3, r.host) && tsep(old(ntok) + 4) && tnum(old(ntok) + 5, r.ttl) && tsep(old(ntok) + 6) && tsep(old(ntok) + 7) && tloc(old(ntok) + 8, r.lo) && ntok == old(ntok) + 9
+//@ func Rtxt.MarshalText
+//@ updates ntok, tokK, tokS, tokB, tokN
+//@ flag skip frame
+//@ ensures[fields] err == nil && tlit(old(ntok), "'") && (r.iswildcard ==> tlit(old(ntok) + 1, "*.")) && tdom(old(ntok) + 1 + ite(r.iswildcard, 1, 0), r.dom) && tsep(old(ntok) + 2 + ite(r.iswildcard, 1, 0)) && tquoted(old(ntok) + 3 + ite(r.iswildcard, 1, 0), r.txt) && tsep(old(ntok) + 4 + ite(r.iswildcard, 1, 0)) && tnum(old(ntok) + 5 + ite(r.iswildcard, 1, 0), r.ttl) && tsep(old(ntok) + 6 + ite(r.iswildcard, 1, 0)) && tsep(old(ntok) + 7 + ite(r.iswildcard, 1, 0)) && tloc(old(ntok) + 8 + ite(r.iswildcard, 1, 0), r.lo) && ntok == old(ntok) + 9 + ite(r.iswildcard, 1, 0)
+//@ func Raux.MarshalText
+//@ updates ntok, tokK, tokS, tokB, tokN
+//@ flag skip frame
+//@ ensures[fields] err == nil && tlit(old(ntok), ":") && tdom(old(ntok) + 1, r.dom) && tsep(old(ntok) + 2) && tnum(old(ntok) + 3, r.rtype) && tsep(old(ntok) + 4) && tquoted(old(ntok) + 5, r.rdata) && tsep(old(ntok) + 6) && tnum(old(ntok) + 7, r.ttl) && tsep(old(ntok) + 8) && tsep(old(ntok) + 9) && tloc(old(ntok) + 10, r.lo) && ntok == old(ntok) + 11
+//@ func Rdot.MarshalText
+//@ updates ntok, tokK, tokS, tokB, tokN
+//@ flag skip frame
+//@ ensures[fields] err == nil ==> tlit(old(ntok), ".") && tdom(old(ntok) + 1, r.Rns.Rns1.dom) && tsep(old(ntok) + 2) && tbytes(old(ntok) + 3, uf.iptext(r.Rns.Raddr.ip)) && tsep(old(ntok) + 4) && tdom(old(ntok) + 5, r.Rns.Rns1.ns) && tsep(old(ntok) + 6) && tnum(old(ntok) + 7, r.Rns.Rns1.ttl) && tsep(old(ntok) + 8) && tsep(old(ntok) + 9) && tloc(old(ntok) + 10, r.Rns.Rns1.lo) && ntok == old(ntok) + 11
+//@ func Ripmap.MarshalText
+//@ updates ntok, tokK, tokS, tokB, tokN
+//@ flag skip frame
+//@ ensures[fields] err == nil && tlit(old(ntok), "M") && tdom(old(ntok) + 1, r.dom) && tsep(old(ntok) + 2) && tlmap(old(ntok) + 3, r.lmap[0], r.lmap[1]) && ntok == old(ntok) + 4
+//@ func Rcsmap.MarshalText
+//@ updates ntok, tokK, tokS, tokB, tokN
+//@ flag skip frame
+//@ ensures[fields] err == nil && tlit(old(ntok), "8") && tdom(old(ntok) + 1, r.dom) && tsep(old(ntok) + 2) && tlmap(old(ntok) + 3, r.lmap[0], r.lmap[1]) && ntok == old(ntok) + 4
